@@ -12,6 +12,17 @@ item's *description* (labels `<letter><row>`), for edit boxes from a fresh clone
 the same text (never from the widget instance inside the list box, so no cache is shared with the code
 under test).  The oracle (spec/listwindow.py) decomposes the rendered rows against that concatenation.
 
+Item alphabet beyond plain texts and edit boxes (added when seeded changes in ListBox.mouse_event and in
+canvas.shards_trim_top went unnoticed): (1) the SAME widget object at several list positions (two reference
+entries with the same label; walker keys stay distinct), also produced by the history operation "dup" (the
+focus widget inserted once more); (2) items described by a tree (DESCR; reference renderer spec/listitems.py,
+independent of urwid): texts with display attributes, a selectable text whose attribute depends on the focus
+flag, Columns with columns of unequal height, Columns holding a Pile, Pile of Columns - their canvases carry
+child canvases that continue through several shards, and the boxes are shorter than the items, so key /
+wheel / page / alignment / resize histories cut them at the top (by one row up to all but one) and at the
+bottom.  The rows shown are compared with the concatenation on FULL cell content: every cell's text byte,
+display attribute and character set (canonical run-length form), not on the text alone.
+
 Exploration: breadth-first over histories from each initial configuration; after every operation the
 list box is rendered (as a main loop does) and judged.  Histories that lead to the same *complete*
 state signature (size, every item's text/cursor/preferred column, walker focus, offset_rows,
@@ -47,6 +58,7 @@ import urwid
 from urwid.canvas import CanvasCache, SolidCanvas
 
 from bounded.common import rng
+from spec import listitems as li
 from spec import listwindow as lw
 
 ID = "C07"
@@ -106,6 +118,45 @@ def _lines(label, h):
     return [f"{label}{i}" for i in range(h)]
 
 
+# Items described by a tree (spec/listitems.py): attribute-bearing leaves and composites whose canvases have
+# child canvases running through several shards (columns of unequal height, a pile inside a column, columns
+# inside a pile).  Added so that the window is checked on FULL cell content (text, attribute, character set)
+# and on canvases that the list box must trim at the top / bottom across shard boundaries.
+DESCR = {
+    "a1": ("A", 1),
+    "a3": ("A", 3),
+    "a7": ("A", 7),
+    "m3": ("M", 3),
+    "Cu": ("C", [(2, ("T", 4)), (1, ("T", 1))]),  # left column taller
+    "Cv": ("C", [(1, ("T", 1)), (2, ("T", 4))]),  # right column taller
+    "Cp": ("C", [(2, ("P", [("T", 2), ("T", 2)])), (1, ("T", 3))]),  # a pile inside a column
+    "Pc": ("P", [("C", [(2, ("T", 2)), (1, ("T", 1))]), ("T", 1), ("C", [(1, ("T", 1)), (2, ("T", 3))])]),  # columns inside a pile
+    "Cs": ("C", [(2, ("A", 4)), (1, ("T", 2))]),  # selectable, focus-dependent attribute
+    "Ct": ("C", [(2, ("T", 7)), (1, ("P", [("T", 2), ("M", 3)]))]),  # taller than every box
+    "Ps": ("P", [("T", 1), ("C", [(1, ("T", 3)), (2, ("A", 2))]), ("T", 1)]),  # selectable pile of columns
+}
+
+
+def build_desc(desc, texts):
+    tag = desc[0]
+    if tag == "T":
+        return urwid.Text("\n".join(next(texts)))
+    if tag == "M":
+        markup = []
+        for r, ln in enumerate(next(texts)):
+            if r:
+                markup.append("\n")
+            markup.append((f"x{r % 2}", ln))
+        return urwid.Text(markup)
+    if tag == "A":
+        return urwid.AttrMap(SelText("\n".join(next(texts))), "n", "F")
+    if tag == "P":
+        return urwid.Pile([build_desc(c, texts) for c in desc[1]])
+    if tag == "C":
+        return urwid.Columns([(w, build_desc(c, texts)) for w, c in desc[1]])
+    raise ValueError(desc)
+
+
 def kind_info(kind):
     """-> (family, height-or-'w', param)"""
     if kind in ("z0", "zs"):
@@ -121,6 +172,8 @@ def kind_info(kind):
 
 
 def kind_selectable(kind):
+    if kind in DESCR:
+        return li.selectable(DESCR[kind])
     return kind[0] in "sei" or kind == "zs"
 
 
@@ -132,6 +185,8 @@ def item_text(kind, label):
 
 
 def build_item(kind, label):
+    if kind in DESCR:
+        return build_desc(DESCR[kind], iter(li.leaf_lines(DESCR[kind], label)))
     fam, h, param = kind_info(kind)
     if kind == "z0":
         return urwid.Pile([])
@@ -182,7 +237,7 @@ def _clone(text, pos, width, focus=False):
     if r is None:
         c = urwid.Edit("", text, multiline=True)
         c.set_edit_pos(pos)
-        r = (list(c.render((width,), focus).text), c.get_cursor_coords((width,)))
+        r = ([li.canon(row) for row in c.render((width,), focus).content()], c.get_cursor_coords((width,)))
         if len(_CLONE_CACHE) < 200000:
             _CLONE_CACHE[key] = r
     return r
@@ -194,16 +249,21 @@ def _static_lines(kind, label, width):
 
 
 def expected_rows(kind, label, width, edit_state=None, focus=False):
-    """Rows (bytes, padded to width) an item shows, from its description; edit boxes via a fresh clone."""
+    """Rows an item shows (canonical cell content: runs of (attribute, character set, bytes), see
+    spec/listitems.py), from its description; edit boxes via a fresh clone."""
     if kind in ("z0", "zs"):
         return []
+    if kind in DESCR:
+        return [li.runs(row) for row in li.render(DESCR[kind], label, width, focus)]
     if kind[0] == "e":
         return _clone(edit_state[0], edit_state[1], width, focus)[0]
-    return [ln.encode().ljust(width) for ln in _static_lines(kind, label, width)]
+    return [li.plain(ln.encode().ljust(width)) for ln in _static_lines(kind, label, width)]
 
 
 def expected_cursor(kind, label, width, edit_state):
     """(cx, cy) inside the item when it has the focus, or None."""
+    if kind in DESCR:
+        return None  # selectable leaves of described items are cursor-less texts
     if kind[0] == "e":
         return _clone(edit_state[0], edit_state[1], width, True)[1]
     if kind[0] == "i":
@@ -304,16 +364,27 @@ class World:
     def __init__(self, cfg):
         self.cfg = cfg
         self.ref = [[k, lab] for k, lab in cfg["items"]]  # reference list of descriptions
-        self.widgets = [build_item(k, lab) for k, lab in self.ref]
+        # two entries with the same label are THE SAME widget object sitting at two positions of the list (the
+        # way one Divider / one "more" button is reused); walker keys stay unique (label, label', label'', ...)
+        built = {}
+        self.widgets = []
+        self.keys = []
+        for k, lab in self.ref:
+            if lab not in built:
+                built[lab] = [build_item(k, lab), 0]
+            else:
+                built[lab][1] += 1
+            self.widgets.append(built[lab][0])
+            self.keys.append(lab + "'" * built[lab][1])
         wk = cfg["walker"]
         if wk == "slw":
             self.walker = urwid.SimpleListWalker(list(self.widgets))
         elif wk == "sflw":
             self.walker = urwid.SimpleFocusListWalker(list(self.widgets))
         elif wk == "key":
-            self.walker = KeyWalker([(lab, w) for (_k, lab), w in zip(self.ref, self.widgets)])
+            self.walker = KeyWalker(list(zip(self.keys, self.widgets)))
         elif wk == "min":
-            self.walker = MinimalWalker([(lab, w) for (_k, lab), w in zip(self.ref, self.widgets)])
+            self.walker = MinimalWalker(list(zip(self.keys, self.widgets)))
         else:
             raise ValueError(wk)
         self.keyed = wk in ("key", "min")
@@ -324,14 +395,13 @@ class World:
 
     # positions <-> reference indices
     def pos_of(self, idx):
-        return self.ref[idx][1] if self.keyed else idx
+        return self.keys[idx] if self.keyed else idx
 
     def idx_of(self, pos):
         if self.keyed:
-            for i, (_k, lab) in enumerate(self.ref):
-                if lab == pos:
-                    return i
-            raise KeyError(pos)
+            if pos not in self.keys:
+                raise KeyError(pos)
+            return self.keys.index(pos)
         return pos
 
     def focus_idx(self):
@@ -387,14 +457,26 @@ class World:
             w = build_item(k, lab)
             self.ref.insert(i, [k, lab])
             self.widgets.insert(i, w)
+            self.keys.insert(i, lab)
             if self.keyed:
                 self.walker.insert(i, lab, w)
+            else:
+                self.walker.insert(i, w)
+        elif kind == "dup":  # the widget object at index j is inserted once more, at index i (walker key: fresh)
+            _k, i, j, key = op
+            w = self.widgets[j]
+            self.ref.insert(i, list(self.ref[j]))
+            self.widgets.insert(i, w)
+            self.keys.insert(i, key)
+            if self.keyed:
+                self.walker.insert(i, key, w)
             else:
                 self.walker.insert(i, w)
         elif kind == "del":
             i = op[1]
             del self.ref[i]
             del self.widgets[i]
+            del self.keys[i]
             if self.keyed:
                 self.walker.delete(i)
             else:
@@ -404,6 +486,7 @@ class World:
             w = build_item(k, lab)
             self.ref[i] = [k, lab]
             self.widgets[i] = w
+            self.keys[i] = lab
             if self.keyed:
                 self.walker.replace(i, lab, w)
             else:
@@ -504,10 +587,13 @@ def run_history(cfg, ops):
             canv = wd.lb.render(wd.size, wd.focus)
             if not is_last and not before_press:
                 continue  # prefixes are judged as histories of their own
-            R = tuple(canv.text)
+            # full cell content (text, display attribute, character set of every cell), not the text alone
+            R = tuple(li.canon(row) for row in canv.content())
             cursor = canv.cursor
             if canv.rows() != wd.size[1] or canv.cols() != wd.size[0] or len(R) != wd.size[1]:
                 raise AssertionError(f"canvas is {canv.cols()}x{canv.rows()} for size {wd.size}")
+            if any(sum(len(t) for _a, _cs, t in row) != wd.size[0] for row in R):
+                raise AssertionError(f"canvas content rows are {[sum(len(t) for _a, _cs, t in row) for row in R]} cells wide for size {wd.size}")
             v["render-no-raise"] = (True, "", True)
         except Exception as e:  # noqa: BLE001
             v["render-no-raise"] = (False, f"render{wd.size} raised {_exc(e)}", True)
@@ -516,7 +602,7 @@ def run_history(cfg, ops):
             if n < len(steps) - 1:
                 last["early"] = n
             break
-        obs["rows"] = [r.decode() for r in R]
+        obs["rows"] = [li.row_text(r) for r in R]
         obs["cursor"] = cursor
         try:
             fi = wd.focus_idx()
@@ -530,7 +616,7 @@ def run_history(cfg, ops):
             k, lab = wd.ref[fi]
             if kind_selectable(k):
                 cexp = expected_cursor(k, lab, wd.size[0], wd.edit_state(fi))
-        blank = b" " * wd.size[0]
+        blank = li.plain(b" " * wd.size[0])
         best = None
         for rpi in variants:
             cand = lw.judge(list(R), rpi, blank, fi, cexp, cursor)
@@ -542,7 +628,7 @@ def run_history(cfg, ops):
         jv, base, (C, owner, _span) = best[1]
         for c, x in jv.items():
             v.setdefault(c, x)
-        obs["list_rows"] = [r.decode() for r in C]
+        obs["list_rows"] = [li.row_text(r) for r in C]
         if base:
             prev_base = (base, owner, wd.size)
         last = {"verdicts": v, "alive": True, "sig": wd.signature(R, cursor), "info": state_info(wd), "info_pre": info_pre, "obs": obs}
@@ -591,6 +677,9 @@ def gen_ops(info, depth_index, opts):
     for i in where:
         for k in opts.get("new_kinds", NEW_KINDS):
             ops.append(["ins", i, k, lab])
+    if f is not None and opts.get("dup", True):
+        for i in sorted({0, n}):  # the focus widget object once more, at the top / at the end of the list
+            ops.append(["dup", i, f, lab])
     for i in range(n):
         ops.append(["del", i])
     for i in range(n):
@@ -661,6 +750,8 @@ def record(tally, cfg, hist, res):
             cls = obs.get("class") if clause in ("render-no-raise", "event-no-raise") else _why_class(clause, why)
             last_op = "initial" if not hist else (f"key {hist[-1][1]}" if hist[-1][0] == "key" else hist[-1][0])
             zero = any(k in ("z0", "zs") for k, _l in cfg["items"])
+            if len({lab for _k, lab in cfg["items"]}) < len(cfg["items"]):
+                last_op += " | a widget object at two positions"
             if clause == "click-focus" and len(hist) > 1:
                 last_op += f" right after {hist[-2][0]}"
             cls = f"{cls} | last op {last_op} | {'with' if zero else 'no'} 0-row item in the initial list"
@@ -752,7 +843,10 @@ LABELS = "abcdefgh"
 
 
 def _cfg(kinds, size, walker, focus=True, render="every"):
-    c = {"items": [[k, LABELS[i]] for i, k in enumerate(kinds)], "size": list(size), "walker": walker, "focus": focus}
+    items = []
+    for i, k in enumerate(kinds):
+        items.append(list(items[int(k[1:])]) if k[0] == "=" else [k, LABELS[i]])  # "=j": the same widget object as item j
+    c = {"items": items, "size": list(size), "walker": walker, "focus": focus}
     if render != "every":
         c["render"] = render
     return c
@@ -774,6 +868,20 @@ CURATED = [
 ]
 
 
+# the same widget object at two (three) positions: "=j" stands for the object of item j
+SHARED = [
+    ["s1", "t1", "=0"], ["s3", "=0"], ["e3.4", "t1", "=0"], ["t1", "s1", "s1", "=1"], ["a1", "t3", "=0", "s1"], ["s1", "=0", "=0"],
+    ["i3.4", "=0"], ["Cs", "t1", "=0"], ["t1", "=0", "=0", "=0"], ["a3", "s1", "=0", "=1"], ["s1", "s1", "s1", "=0", "t1", "=0"],
+]
+SHARED_SIZES = [(3, 3), (3, 4), (9, 5), (3, 2), (3, 6)]
+# attribute-bearing items and composites with child canvases that run through several shards, in boxes
+# shorter than the items so that histories cut them at the top and at the bottom
+COMPOSITE = [
+    ["Cu"], ["t1", "Cu", "t1", "t1"], ["Cv", "t3"], ["Cp", "s1"], ["s1", "Pc"], ["Cs", "Cs"], ["t1", "Ct"], ["Ps", "t1", "Cu"],
+    ["Cu", "Cv", "Cp"], ["m3", "a3", "m3"], ["a1", "a1", "a1"], ["a7", "t1"], ["Cs", "t3", "s1"], ["t3", "Ps"], ["Pc", "Pc"], ["Ct", "s1"],
+    ["t1", "Cp", "t3"], ["Cv", "=0"], ["e3.4", "Cu", "e1.1"], ["z0", "Cu", "zs", "Cv"],
+]
+COMPOSITE_SIZES = [(3, 2), (3, 3), (9, 3), (3, 1), (9, 4)]
 SIZES_QUICK = [(3, 1), (3, 2), (3, 3), (9, 4), (3, 5)]
 SIZES_THOROUGH = [(3, 1), (3, 2), (3, 3), (3, 4), (9, 2), (9, 5)]
 WALKERS = ["slw", "sflw", "key"]
@@ -828,6 +936,27 @@ def tasks_for(tier):
     if not quick:
         for j, kinds in enumerate([CURATED[14], CURATED[38]]):
             tasks.append((_cfg(kinds, (3, 2 + j % 3), WALKERS[j % 3], True, "sparse"), 3, DEEP_OPTS, 450))
+    # 2c. the same widget object at several positions; attribute-bearing and composite (multi-shard) items
+    for j, kinds in enumerate(SHARED):
+        for wi, w in enumerate([WALKERS[j % 3]] if quick else WALKERS):
+            tasks.append((_cfg(kinds, SHARED_SIZES[(j + wi) % 5], w), 2, full, 12))
+    for j, k in enumerate(DESCR):  # each described kind alone and next to every other one
+        tasks.append((_cfg([k], [(3, 2), (9, 3), (3, 1)][j % 3], WALKERS[j % 3]), 2, full, 8))
+        if not quick:
+            for j2, k2 in enumerate(DESCR):
+                tasks.append((_cfg([k, k2], [(3, 2), (3, 4), (3, 1), (9, 3)][(j + j2) % 4], WALKERS[(j + j2) % 3]), 2, QUICK_OPTS, 7))
+    for j, kinds in enumerate(COMPOSITE):
+        for wi, w in enumerate([WALKERS[j % 3]] if quick else WALKERS):
+            tasks.append((_cfg(kinds, COMPOSITE_SIZES[(j + wi) % 5], w), 2, full, 12))
+        if not quick or j % 4 == 1:
+            tasks.append((_cfg(kinds, COMPOSITE_SIZES[(j + 1) % 3], WALKERS[(j + 1) % 3], True, "sparse"), 2, QUICK_OPTS, 12))
+    for j, kinds in enumerate([COMPOSITE[1], COMPOSITE[12]]):
+        cfg = _cfg(kinds, (3, 3 - j % 2), WALKERS[j % 3])
+        if quick:
+            tasks.append((cfg, 3, DEEP_OPTS, 30))
+        else:
+            for part in range(8):
+                tasks.append((cfg, 4, DEEP_OPTS, 500, (part, 8)))
     # 3. deeper histories on the reduced alphabet
     deep_lists = CURATED[12::10] if quick else [CURATED[i] for i in (26, 27, 45)]
     for j, kinds in enumerate(deep_lists):
@@ -853,7 +982,10 @@ def _random_task(arg):
     tally = Tally()
     for _ in range(count):
         n = r.choice([0, 1, 2, 3, 3, 4, 4, 5, 6])
-        kinds = [r.choice(ALL_KINDS) for _i in range(n)]
+        kinds = [r.choice(ALL_KINDS if r.random() < 0.6 else list(DESCR)) for _i in range(n)]
+        for i in range(1, n):  # now and then the same widget object again
+            if r.random() < 0.15:
+                kinds[i] = f"={r.randrange(i)}"
         cfg = _cfg(kinds, (r.choice(WIDTHS), r.randint(1, 6)), r.choice(["slw", "sflw", "key"]), r.random() < 0.9)
         hist = []
         res = run_history(cfg, hist)
@@ -934,12 +1066,15 @@ def run(tier="quick", seed=0):
     bound = (
         f"{ncfg(lambda t: True)} initial configurations = {len(CURATED)} curated lists of 0..4 items "
         f"{'x one box and one walker each (rotating over 5 boxes, 3 walkers)' if quick else 'x 3 walkers x 2 of 6 boxes (rotating)'} + every list of 1 and 2 items over {len(ALL_KINDS)} kinds "
-        f"(Text / selectable Text / Edit / SelectableIcon of 1, 3, {TALL} rows and width-dependent height; 0-row items; cursors on first/middle/last row) + a few with a positions()-less walker or rendered without focus; "
+        f"(Text / selectable Text / Edit / SelectableIcon of 1, 3, {TALL} rows and width-dependent height; 0-row items; cursors on first/middle/last row) + a few with a positions()-less walker or rendered without focus "
+        f"+ {len(SHARED)} lists in which ONE widget object sits at 2..4 positions + {len(COMPOSITE)} lists (and each kind alone) over {len(DESCR)} attribute-bearing / composite kinds "
+        f"(AttrMap'd selectable text with a focus attribute, per-line markup attributes, Columns of unequal-height columns, Columns holding a Pile, Pile of Columns: canvases whose child canvases span several shards) in boxes of 1..4 rows, shorter than the items; "
+        f"rows compared on full cell content (text, attribute, character set); "
         f"walkers SimpleListWalker, SimpleFocusListWalker, custom key walker; boxes {WIDTHS[0]} or {WIDTHS[1]} columns x 1..6 rows. "
         f"ALL histories of <= 2 operations{' (1 for the two-item lists)' if quick else ''}"
         f"{'' if quick else f', <= 3 on {ndeep3} of them'}, and <= {3 if quick else 4} on {ndeepr} lists with a reduced alphabet, over: keys {'/'.join(KEYS)}, button-1 press on every row, wheel up/down, "
         f"set_focus(every position; coming_from {'None or the true direction' if quick else 'None/above/below'}), set_focus_valign(top/middle/bottom/relative 30), rows+-1, width toggle, "
-        f"insert ({2 if quick else 3} kinds at top/focus/after focus/end), delete (every index), replace (focus and neighbours, {1 if quick else 2} kind(s)); "
+        f"insert ({2 if quick else 3} kinds at top/focus/after focus/end), insert the focus widget OBJECT once more (top/end), delete (every index), replace (focus and neighbours, {1 if quick else 2} kind(s)); "
         f"render after every operation; histories merged when they reach the same complete state signature; measured: {total.states} distinct states, {total.steps} operation+render steps"
     )
     checks = [_result(f"{ID}/{c}", RULES[c], bound, True, total, c, t0) for c in CLAUSES]
